@@ -303,3 +303,87 @@ def gl22_tokens(repo: Repo) -> Dict[str, Tuple[Module, ast.AST]]:
         for t in s.split():
             out[t] = (m, env["ops_list_str"])
     return out
+
+
+# --------------------------------------------------------------------------- api.project: attributes of the project's own modules
+
+
+def _module_aliases(repo: Repo, m: Module) -> Dict[str, str]:
+    """alias -> rel path of the graphiq module it is bound to by a module-level import"""
+    import os
+    out: Dict[str, str] = {}
+
+    def rel_of(dotted_name: str) -> Optional[str]:
+        base = dotted_name.replace(".", "/")
+        for cand in (base + ".py", base + "/__init__.py"):
+            if os.path.exists(os.path.join(repo.root, cand)):
+                return cand
+        return None
+
+    for st in m.tree.body:
+        if isinstance(st, ast.Import):
+            for a in st.names:
+                if a.name.startswith("graphiq") and a.asname:
+                    r = rel_of(a.name)
+                    if r:
+                        out[a.asname] = r
+        elif isinstance(st, ast.ImportFrom) and st.module and st.module.startswith("graphiq") and st.level == 0:
+            for a in st.names:
+                r = rel_of(st.module + "." + a.name)
+                if r:
+                    out[a.asname or a.name] = r
+    return out
+
+
+def _top_names(tm: Module) -> Set[str]:
+    out: Set[str] = set()
+    for x in ast.walk(tm.tree):
+        # anything bound at module level, also under if/try; nested function bodies only add harmless extra names
+        if isinstance(x, (ast.FunctionDef, ast.ClassDef, ast.AsyncFunctionDef)):
+            out.add(x.name)
+        elif isinstance(x, ast.Assign):
+            for t in x.targets:
+                for y in ast.walk(t):
+                    if isinstance(y, ast.Name):
+                        out.add(y.id)
+        elif isinstance(x, (ast.AnnAssign, ast.AugAssign)) and isinstance(x.target, ast.Name):
+            out.add(x.target.id)
+        elif isinstance(x, ast.Import):
+            for a in x.names:
+                out.add((a.asname or a.name).split(".")[0])
+        elif isinstance(x, ast.ImportFrom):
+            for a in x.names:
+                out.add(a.asname or a.name)
+    return out
+
+
+def rule_api_project(ctx: Ctx, rels: List[str]) -> None:
+    """api.project: `alias.name` where `alias` is bound by a module-level import to one of graphiq's own modules names something
+    that module defines; otherwise the call raises AttributeError the first time it is reached (no test reaches it)."""
+    import os
+    repo = ctx.repo
+    n = 0
+    for rel in rels:
+        m = repo.module(rel)
+        al = _module_aliases(repo, m)
+        if not al:
+            continue
+        for fn in [f for f in ast.walk(m.tree) if isinstance(f, (ast.FunctionDef, ast.AsyncFunctionDef))]:
+            local = {a.arg for a in fn.args.posonlyargs + fn.args.args + fn.args.kwonlyargs}
+            local |= {x.id for x in ast.walk(fn) if isinstance(x, ast.Name) and isinstance(x.ctx, ast.Store)}
+            for node in ast.walk(fn):
+                if isinstance(node, ast.Attribute) and isinstance(node.value, ast.Name) and node.value.id in al and node.value.id not in local:
+                    tm = repo.module(al[node.value.id])
+                    n += 1
+                    names = _top_names(tm)
+                    pkg_dir = os.path.dirname(os.path.join(repo.root, tm.rel))
+                    sub_ok = tm.rel.endswith("__init__.py") and (os.path.exists(os.path.join(pkg_dir, node.attr + ".py")) or os.path.isdir(os.path.join(pkg_dir, node.attr)))
+                    if node.attr in names or sub_ok or node.attr.startswith("__"):
+                        continue
+                    ctx.touch(m, fn)
+                    ctx.fail("api.project", m, node,
+                             f"{qualname(fn)} uses `{node.value.id}.{node.attr}`, but {tm.rel} defines no `{node.attr}`: the call raises AttributeError "
+                             f"whenever this line is reached", func=qualname(fn), construct=f"{qualname(fn)}: {tm.rel.rsplit('/', 1)[-1]} has no {node.attr}")
+    if n == 0:
+        raise AnalysisError("api.project: no use of a project module alias found")
+    ctx.ok_abstract("api.project", f"{n} attribute uses of graphiq module aliases resolved")
